@@ -181,6 +181,34 @@ func runC16(ctx *Ctx) {
 		return c
 	}, func(c *Case) error { return checkC16(ctx, c) })
 
+	// deeply nested messages: both resolver paths must accept what the codec accepts
+	if ctx.Shard == 0 {
+		n := 0
+		for _, t := range types {
+			path := cyclePath(t.Desc)
+			if path == nil {
+				continue
+			}
+			if n++; n > 4 {
+				break
+			}
+			for _, levels := range []int{150, 1500} {
+				c := &Case{Sub: "pack", Type: string(t.Name), Bytes: hexs(nestedPayload(path, levels)), Args: map[string]string{"opts": "deterministic", "deep": fmt.Sprint(levels)}}
+				ctx.Eval(1)
+				if err := safely(func() error { return checkC16(ctx, c) }); err != nil {
+					if strings.HasPrefix(err.Error(), "HARNESS") {
+						fmt.Printf("HARNESS-ERROR %v\n", err)
+					} else {
+						ctx.Violation(c, fmt.Sprintf("message nested %d levels: %v", levels, err))
+					}
+					ctx.T.Fail()
+				} else {
+					ctx.Label(fmt.Sprintf("pack: nested %d levels", levels))
+				}
+			}
+		}
+	}
+
 	// the source IS the destination, or holds it in a field: the packed value is
 	// the source as it was when the call was made
 	ctx.CheckRapid("alias", per(20000, 160000), func(rt *rapid.T) *Case {
